@@ -5,7 +5,9 @@ import DW.Generated.Tables
 import DW.Model.Load
 import DW.Model.LoadV1
 import DW.Lemmas.Tagged
+import DW.Lemmas.TaggedV1
 import DW.Lemmas.RoundTrip
+import DW.Lemmas.RoundTripV1
 
 namespace DW.Props.C13
 open DW DW.Tagged
@@ -94,34 +96,6 @@ theorem C13_roundtrip_tagged (std : Std) (laws : StdLaws std) (cfg : Option Meta
 The v1 Union helper reads `v1[tag_key]` first (when at least one member dataclass carries a tag) and compares it with each
 member's tag in turn; only a value without the tag key falls through to the exact-type / try-parse passes. -/
 
-/-- v1 dispatch depends on the tag alone: if exactly one member class answers to tag `tg` — wherever it stands in the Union,
-whatever the other members' fields look like — the value is built by *that* class's function. -/
-theorem v1Tagged_dispatch (std : Std) (cfg : Option MetaCfg) (tg : S) (pre post : List Ty)
-    (ci : ClassInfo) (ftys : List (S × Ty)) (o : JVal)
-    (hk : memberTag cfg ci = some tg)
-    (hpre : ∀ t ∈ pre, tagOf cfg t ≠ some tg) (hpost : ∀ t ∈ post, tagOf cfg t ≠ some tg) :
-    v1Tagged std cfg tg (pre ++ .cls ci ftys :: post) o
-      = v1ClassWith (fun f v => v1Field std cfg f v ftys) (effMeta ci.cmeta cfg) ci o := by
-  induction pre with
-  | nil =>
-    simp only [List.nil_append, v1Tagged]
-    have : (post.any (tyHasTag cfg tg)) = false := by
-      rw [List.any_eq_false]
-      intro t' ht'
-      have := hpost t' ht'
-      cases t' <;> simp [tagOf, tyHasTag] at this ⊢
-      exact this
-    rw [this]
-    simp [hk]
-  | cons t r ih =>
-    have hr : ∀ t ∈ r, tagOf cfg t ≠ some tg := fun t' ht' => hpre t' (by simp [ht'])
-    have ht := hpre t (by simp)
-    cases t <;> simp only [List.cons_append, v1Tagged] <;> try exact ih hr
-    case cls ci' ftys' =>
-      simp [tagOf] at ht
-      simp [ht]
-      exact ih hr
-
 /-- C13 dispatch for the v1 engine, end to end at a Union annotation: a dict whose tag key holds K's tag is loaded as K, for
 every position of K among the Union arguments and whatever scalar / container / other dataclass members stand next to it. -/
 theorem C13_v1_dispatch (std : Std) (cfg : Option MetaCfg) (tg : S) (pre post : List Ty)
@@ -131,16 +105,8 @@ theorem C13_v1_dispatch (std : Std) (cfg : Option MetaCfg) (tg : S) (pre post : 
     (htag : kvs.find? (fun kv => kv.1 == (cfg.bind (·.tagKey)).getD Generated.tagKey.toList)
               = some ((cfg.bind (·.tagKey)).getD Generated.tagKey.toList, .str tg)) :
     loadV1 std cfg (.union (pre ++ .cls ci ftys :: post)) (.dict kvs)
-      = v1ClassWith (fun f v => v1Field std cfg f v ftys) (effMeta ci.cmeta cfg) ci (.dict kvs) := by
-  simp only [loadV1, JVal.kind]
-  have hk' : (JKind.dict == JKind.null) = false := by decide
-  simp only [hk', Bool.false_and, Bool.false_eq_true, ↓reduceIte]
-  have htagged : v1AnyTagged cfg (pre ++ .cls ci ftys :: post) = true := by
-    unfold v1AnyTagged
-    apply List.any_eq_true.mpr
-    exact ⟨.cls ci ftys, by simp, by simp [isTaggedMember, hk]⟩
-  simp only [htagged, htag, ↓reduceIte, Option.map_some]
-  exact v1Tagged_dispatch std cfg tg pre post ci ftys (.dict kvs) hk hpre hpost
+      = v1ClassWith (fun f v => v1Field std cfg f v ftys) (effMeta ci.cmeta cfg) ci (.dict kvs) :=
+  v1_dispatch_core std cfg tg pre post ci ftys kvs hk hpre hpost htag
 
 theorem v1Tagged_unassigned (std : Std) (cfg : Option MetaCfg) (tg : S) (ts : List Ty) (o : JVal)
     (h : ∀ t ∈ ts, tagOf cfg t ≠ some tg) : v1Tagged std cfg tg ts o = .error (.parse none none) := by
@@ -242,5 +208,40 @@ theorem C13_v1_tag_only_class_witness :
     v1TagKey eff ∈ v1KnownKeys eff ci ∧
     v1ClassWith (fun _ v => pure v.toPy) eff ci (.dict [(['t'], .str ['b'])]) = .error (.unknownKeys ['B'] []) := by
   refine ⟨by decide, by rfl⟩
+
+/-- **dump then load through the Union** (v1 engine): below a main class whose v1 Meta makes the load key case match the dump
+transform (`RTV1.Setup`), for a member class K carrying tag `tg` (`RTV1.ClsOK … (some tg)`: the tag key is none of K's
+keys) and **any** other members — dataclasses, scalars, containers — of which none answers to the same tag: what `asdict`
+writes for an instance of K is loaded back by the Union annotation to exactly that instance. -/
+theorem C13_v1_roundtrip_tagged (su : RTV1.Setup) (std : Std) (laws : StdLaws std) (pre post : List Ty) (ci : ClassInfo)
+    (ftys : List (S × Ty)) (vals : List PyVal) (tg : S) (hp : RTV1.ClsOK su ci ftys (some tg)) (hlen : vals.length = ftys.length)
+    (hvals : ∀ p ∈ ftys.zip vals, RTV1.Conf su std p.1.2 p.2)
+    (hpre : ∀ t ∈ pre, tagOf (some su.m) t ≠ some tg) (hpost : ∀ t ∈ post, tagOf (some su.m) t ≠ some tg)
+    (d : DVal) (h : dumpV std false (some su.m) (.inst ci ((ftys.map (·.1)).zip vals)) = .ok d) :
+    loadV1 std (some su.m) (.union (pre ++ .cls ci ftys :: post)) (RT.toJ d) = .ok (.inst ci ((ftys.map (·.1)).zip vals)) :=
+  RTV1.rt_unionTagged std pre post ci ftys vals tg hp hlen
+    (fun p hp' => RTV1.roundtrip std laws p.1.2 p.2 (hvals p hp')) hpre hpost d h
+
+/-- the hypotheses are satisfiable: `Cat(name: str)` with `Meta.tag = 'cat'` below a root with the v1 CAMEL Meta is
+`RTV1.ClsOK … (some 'cat')` -/
+theorem C13_v1_roundtrip_tagged_example :
+    RTV1.ClsOK RTV1.camelSetup
+      { name := "Cat".toList, cmeta := some { tag := some "cat".toList }, fields := [{ name := "name".toList }] }
+      [("name".toList, .str)] (some "cat".toList) := by
+  refine ⟨by decide, rfl, by decide, ?_, ?_, ?_, by decide, ?_, ?_⟩
+  · intro f hf
+    simp only [List.mem_cons, List.not_mem_nil, or_false] at hf
+    subst hf; exact ⟨rfl, rfl, rfl, rfl⟩
+  · intro f hf
+    simp only [List.mem_cons, List.not_mem_nil, or_false] at hf
+    subst hf; rfl
+  · intro f hf
+    simp only [List.mem_cons, List.not_mem_nil, or_false] at hf
+    subst hf; exact ⟨[], rfl⟩
+  · intro t ht; cases ht; rfl
+  · intro t ht f hf
+    cases ht
+    simp only [List.mem_cons, List.not_mem_nil, or_false] at hf
+    subst hf; decide
 
 end DW.Props.C13
